@@ -364,3 +364,630 @@ def bfs_states(start, step):
                 seen.add(t)
                 dq.append(t)
     return seen
+
+
+# ================================================================================================ value origin
+
+def origin(fn, nid, depth=0):
+    """Follow a value through parentheses, implicit and explicit casts and locals that have exactly one definition
+    (their initialiser) to the expression that computes it."""
+    while nid is not None and nid in fn.nodes and depth < 32:
+        depth += 1
+        nid = peel(fn, nid)
+        n = fn.nodes.get(nid)
+        if n is None:
+            return None
+        if n.get('k') == 'cast' and 'sub' in n:
+            nid = n['sub']
+            continue
+        if n.get('k') == 'var' and n.get('vk') == 'local':
+            dn, dv = decl_of(fn, n['d'])
+            if dv is not None and isinstance(dv.get('init'), int) and not any(w[1] == ('var', n['d']) for w in writes(fn)) \
+                    and not address_taken(fn, ('var', n['d'])):
+                nid = dv['init']
+                continue
+        return nid
+    return nid
+
+
+def onode(fn, nid):
+    x = origin(fn, nid)
+    return fn.nodes.get(x) if x is not None else None
+
+
+# ================================================================================================ model interpreter
+#
+# A small interpreter for the straight C++ subset the geometry back ends are written in.  It walks the CFG facts of a
+# method (statements) and the expression trees (values) over ABSTRACT data: strings are lists of tokens (literal characters,
+# typed binary fields pushed by str_push, coordinate-pair tokens), coordinates are symbolic tags, numbers are Python ints.
+# Calls to functions whose body is in the fact base (private helpers, header(), set_size(), ...) are interpreted
+# recursively, so extracting or inlining a helper, naming a sub-expression, early return vs. if/else or ?: make no
+# difference.  Nothing of libosmium is executed; the rules compose these abstract transformers over protocol sequences.
+
+class ModelUnknown(Exception):
+    """The code uses a construct the model does not cover (=> analysis-broken, never a verdict)."""
+
+
+class ModelError(Exception):
+    """The modelled code does something wrong in the abstract run (patch outside a field, back() on empty string, ...)."""
+
+
+class ModelThrow(Exception):
+    def __init__(self, tt):
+        Exception.__init__(self, 'throws %s' % tt)
+        self.tt = tt
+
+
+class ModelAbort(Exception):
+    pass
+
+
+class _Return(Exception):
+    def __init__(self, value):
+        Exception.__init__(self)
+        self.value = value
+
+
+class Str:
+    """abstract std::string"""
+    __slots__ = ('t',)
+
+    def __init__(self, tokens=()):
+        self.t = list(tokens)
+
+    def copy(self):
+        return Str(self.t)
+
+    def nbytes(self):
+        return sum(tok_size(x) for x in self.t)
+
+
+def tok_size(t):
+    if isinstance(t, tuple) and t[0] == 'bin':
+        return t[1]
+    return 1
+
+
+class Obj:
+    """abstract object with named fields (the back end instance; a Coordinates argument)"""
+
+    def __init__(self, cls, fields):
+        self.cls = cls
+        self.f = dict(fields)
+
+
+class Sym:
+    """opaque scalar (a coordinate component, the srid, the precision)"""
+    __slots__ = ('name',)
+
+    def __init__(self, name):
+        self.name = name
+
+    def __repr__(self):
+        return '<%s>' % (self.name,)
+
+    def __eq__(self, o):
+        return isinstance(o, Sym) and o.name == self.name
+
+    def __hash__(self):
+        return hash(('Sym', self.name))
+
+
+_SIZES = {'double': 8, 'float': 4, 'unsigned int': 4, 'int': 4, 'unsigned long': 8, 'long': 8, 'unsigned char': 1, 'char': 1,
+          'signed char': 1, 'unsigned short': 2, 'short': 2, 'bool': 1}
+
+
+class Model:
+    def __init__(self, fb, enum_sizes=None, max_steps=20000):
+        self.fb = fb
+        self.enum_sizes = enum_sizes or {}
+        self.max_steps = max_steps
+        self.steps = 0
+        self._roots = {}
+
+    # ------------------------------------------------------------------ helpers
+    def type_size(self, t):
+        t = (t or '').replace('const ', '').strip()
+        if t in _SIZES:
+            return _SIZES[t]
+        e = self.fb.enum(t)
+        if e is not None:
+            u = self.enum_sizes.get(t)
+            if u is not None:
+                return u
+            vals = [int(x['value']) for x in e['enumerators']]
+            return 1 if (vals and max(vals) < 256 and e.get('underlying') in (None,)) else self._enum_underlying(e)
+        raise ModelUnknown('size of type %s' % t)
+
+    def _enum_underlying(self, e):
+        # the extractor records the builtin kind of the underlying type; fall back on the value range
+        vals = [int(x['value']) for x in e['enumerators']]
+        tname = e.get('underlying_t') or ''
+        if tname in _SIZES:
+            return _SIZES[tname]
+        return 4 if (not vals or max(vals) >= 256) else 1
+
+    def push_size(self, call, t):
+        """bytes appended by one str_push<T> instantiation: the folded count argument of the append in its body (sizeof(T))."""
+        for g in self.fb.by_usr.get(call.get('u'), []):
+            if not g.has_cfg:
+                continue
+            for x in g.all_nodes():
+                if x.get('k') == 'call' and x.get('q') == 'std::basic_string::append' and len(x.get('args', [])) == 2:
+                    c = g.const_value(x['args'][1])
+                    if c is not None:
+                        return c
+        return self.type_size(t)
+
+    def roots(self, fn):
+        r = self._roots.get(id(fn))
+        if r is None:
+            pm = fn.parent_map()
+            r = {nid for nid in fn.nodes if nid not in pm}
+            self._roots[id(fn)] = r
+        return r
+
+    # ------------------------------------------------------------------ calling
+    def call(self, fn, this, args):
+        if not fn.has_cfg:
+            raise ModelUnknown('%s has no body' % fn.q)
+        env = {}
+        if len(args) > len(fn.params):
+            raise ModelUnknown('argument count of %s' % fn.q)
+        for p, a in zip(fn.params, args):
+            if isinstance(a, Str) and not p['tC'].rstrip().endswith('&'):
+                a = a.copy()
+            env[p['d']] = a
+        fr = _Frame(self, fn, this, env)
+        try:
+            fr.run()
+        except _Return as r:
+            return r.value
+        return None
+
+
+class _Frame:
+    def __init__(self, model, fn, this, env):
+        self.m, self.fn, self.this, self.env = model, fn, this, env
+
+    def unknown(self, nid, why):
+        raise ModelUnknown('%s: %s (`%s` at %s)' % (self.fn.q, why, self.fn.expr(nid)[:70], self.fn.loc(nid)))
+
+    # ------------------------------------------------------------------ statements
+    def run(self):
+        fn, m = self.fn, self.m
+        roots = m.roots(fn)
+        b = fn.entry
+        while True:
+            blk = fn.blocks[b]
+            for e in blk['elems']:
+                m.steps += 1
+                if m.steps > m.max_steps:
+                    raise ModelUnknown('%s: step limit exceeded (loop in the model)' % fn.q)
+                if e in roots:
+                    self.stmt(e)
+            if b == fn.exit:
+                return
+            succs = blk['succs']
+            if not succs:
+                return
+            if blk.get('termcls') == 'SwitchStmt' and 'cond' in blk:
+                v = self.ev(blk['cond'])
+                nxt = None
+                dflt = None
+                for s in succs:
+                    if s is None:
+                        continue
+                    lab = fn.blocks[s].get('label') or {}
+                    if 'case' in lab and self.ev(lab['case']) == v:
+                        nxt = s
+                    if lab.get('default') or not lab:
+                        dflt = s
+                b = nxt if nxt is not None else dflt
+                if b is None:
+                    return
+                continue
+            if 'cond' in blk and len(succs) == 2:
+                v = self.ev(blk['cond'])
+                if isinstance(v, Sym):
+                    self.unknown(blk['cond'], 'branch on an opaque value')
+                b = succs[0] if v else succs[1]
+                if b is None:
+                    return
+                continue
+            nxt = [s for s in succs if s is not None]
+            if len(nxt) != 1:
+                raise ModelUnknown('%s: block %d has an unexpected successor shape' % (fn.q, b))
+            b = nxt[0]
+
+    def stmt(self, nid):
+        n = self.fn.nodes[nid]
+        k = n.get('k')
+        if k == 'autodtor' or k == 'stmt':
+            return
+        if k == 'decl':
+            for v in n['vars']:
+                if isinstance(v.get('init'), int):
+                    val = self.ev(v['init'])
+                    if isinstance(val, Str) and not v['tC'].rstrip().endswith('&') and not self._is_fresh(v['init']):
+                        val = val.copy()
+                    self.env[v['d']] = val
+                else:
+                    self.env[v['d']] = Str() if _is_str_type(v['tC']) else 0
+            return
+        if k == 'return':
+            val = self.ev(n['sub']) if 'sub' in n else None
+            if isinstance(val, Str):
+                val = val.copy()
+            raise _Return(val)
+        if k == 'throw':
+            raise ModelThrow(n.get('tt') or 'rethrow')
+        if k == 'init':
+            if 'name' in n and isinstance(n.get('init'), int) and isinstance(self.this, Obj):
+                self.this.f[n['name']] = self.ev(n['init'])
+            return
+        self.ev(nid)
+
+    def _is_fresh(self, nid):
+        """the initialiser creates a new string object (construction / call result), not an alias of an existing one"""
+        x = self.fn.nodes.get(peel_wrappers(self.fn, nid), {})
+        return x.get('k') in ('construct', 'call', 'lit')
+
+    # ------------------------------------------------------------------ lvalues
+    def lv(self, nid):
+        fn = self.fn
+        n = fn.nodes.get(nid)
+        if n is None:
+            raise ModelUnknown('%s: missing node' % fn.q)
+        k = n.get('k')
+        if k in ('wrap', 'icast') and 'sub' in n:
+            return self.lv(n['sub'])
+        if k == 'cast' and n.get('ck') == 'NoOp':
+            return self.lv(n['sub'])
+        if k == 'var' and n.get('vk') in ('local', 'param'):
+            return ('env', n['d'])
+        if k == 'member' and n.get('field'):
+            base = self.ev(n['base'])
+            if isinstance(base, Obj):
+                return ('field', base, n['name'])
+            self.unknown(nid, 'member of a non-object')
+        if k == 'call' and n.get('q') == 'std::basic_string::back' and n.get('recv') is not None:
+            s = self.ev(n['recv'])
+            if isinstance(s, Str):
+                return ('back', s)
+        if k == 'call' and n.get('q') == 'std::basic_string::operator[]' and n.get('recv') is not None:
+            s = self.ev(n['recv'])
+            i = self.ev(n['args'][0])
+            if isinstance(s, Str) and isinstance(i, int):
+                return ('at', s, i)
+        if k == 'unop' and n.get('op') == '*':
+            a = self.ev(n['sub'])
+            if isinstance(a, tuple) and a and a[0] == 'addr':
+                return a[1]
+        if k == 'unop' and n.get('op') in ('++', '--') and not n.get('postfix'):
+            self.ev(nid)
+            return self.lv(n['sub'])
+        if k == 'assign':
+            self.ev(nid)
+            return self.lv(n['lhs'])
+        self.unknown(nid, 'lvalue of this form is not modelled')
+
+    def load(self, ref):
+        if ref[0] == 'env':
+            if ref[1] not in self.env:
+                raise ModelUnknown('%s: read of an unset local' % self.fn.q)
+            return self.env[ref[1]]
+        if ref[0] == 'field':
+            if ref[2] not in ref[1].f:
+                raise ModelUnknown('%s: read of unknown member %s' % (self.fn.q, ref[2]))
+            return ref[1].f[ref[2]]
+        if ref[0] == 'back':
+            if not ref[1].t:
+                raise ModelError('back() of an empty string')
+            return ref[1].t[-1]
+        if ref[0] == 'at':
+            return ('byte', ref[1], ref[2])
+        raise ModelUnknown('load')
+
+    def store(self, ref, val):
+        if ref[0] == 'env':
+            cur = self.env.get(ref[1])
+            if isinstance(cur, Str) and isinstance(val, (Str, str)):
+                cur.t = list(val.t if isinstance(val, Str) else val)      # assignment keeps the object identity (references)
+            else:
+                self.env[ref[1]] = val
+        elif ref[0] == 'field':
+            cur = ref[1].f.get(ref[2])
+            if isinstance(cur, Str) and isinstance(val, (Str, str)):
+                cur.t = list(val.t if isinstance(val, Str) else val)
+            else:
+                ref[1].f[ref[2]] = val
+        elif ref[0] == 'back':
+            if not ref[1].t:
+                raise ModelError('back() = ... on an empty string')
+            ref[1].t[-1] = _as_char(val)
+        else:
+            raise ModelUnknown('store through %s' % (ref[0],))
+
+    # ------------------------------------------------------------------ expressions
+    def ev(self, nid):
+        fn = self.fn
+        n = fn.nodes.get(nid)
+        if n is None:
+            raise ModelUnknown('%s: missing node' % fn.q)
+        k = n.get('k')
+        if k in ('wrap', 'icast'):
+            if 'sub' not in n:
+                return None
+            return self.ev(n['sub'])
+        if k == 'lit':
+            if 'str' in n:
+                return n['str']
+            if n.get('null'):
+                return 0
+            if n.get('float'):
+                return float(n['cv'])
+            if 'cv' in n:
+                return int(n['cv'])
+            self.unknown(nid, 'literal')
+        if 'cv' in n and k in ('call', 'sizeof', 'binop', 'unop', 'cast') and not n.get('float'):
+            try:
+                return int(n['cv'])
+            except ValueError:
+                pass
+        if k == 'cast':
+            v = self.ev(n['sub'])
+            if isinstance(v, int) and not isinstance(v, bool):
+                sz = _SIZES.get((n.get('toC') or '').replace('const ', ''))
+                if sz and (n.get('toC') or '').startswith('unsigned'):
+                    v &= (1 << (8 * sz)) - 1
+            return v
+        if k == 'var':
+            vk = n.get('vk')
+            if vk in ('local', 'param'):
+                return self.load(('env', n['d']))
+            if 'cv' in n:
+                return float(n['cv']) if n.get('float') else int(n['cv'])
+            if vk in ('global', 'static_member'):
+                g = self.m.fb.global_const(n.get('q'))
+                if g is not None and 'cv' in g:
+                    try:
+                        return int(g['cv'])
+                    except ValueError:
+                        return float(g['cv'])
+            if vk == 'function':
+                return ('function', n.get('q'))
+            self.unknown(nid, 'variable of kind %s' % vk)
+        if k == 'this':
+            return self.this
+        if k == 'member':
+            if n.get('field'):
+                base = self.ev(n['base'])
+                if isinstance(base, Obj):
+                    return self.load(('field', base, n['name']))
+                self.unknown(nid, 'member of a non-object')
+            return ('method', n.get('q'))
+        if k == 'binop':
+            op = n['op']
+            if op == '&&':
+                return bool(self.ev(n['lhs'])) and bool(self.ev(n['rhs']))
+            if op == '||':
+                return bool(self.ev(n['lhs'])) or bool(self.ev(n['rhs']))
+            if op == ',':
+                self.ev(n['lhs'])
+                return self.ev(n['rhs'])
+            a, b = self.ev(n['lhs']), self.ev(n['rhs'])
+            if isinstance(a, Sym) or isinstance(b, Sym):
+                if op == '|' or op == '+':
+                    return Sym((op, getattr(a, 'name', a), getattr(b, 'name', b)))
+                self.unknown(nid, 'arithmetic on an opaque value')
+            try:
+                return {'+': lambda: a + b, '-': lambda: a - b, '*': lambda: a * b, '/': lambda: a // b if isinstance(a, int) and isinstance(b, int) else a / b,
+                        '%': lambda: a % b, '<<': lambda: a << b, '>>': lambda: a >> b, '&': lambda: a & b, '|': lambda: a | b, '^': lambda: a ^ b,
+                        '<': lambda: a < b, '<=': lambda: a <= b, '>': lambda: a > b, '>=': lambda: a >= b, '==': lambda: a == b, '!=': lambda: a != b}[op]()
+            except (KeyError, TypeError, ZeroDivisionError):
+                self.unknown(nid, 'operator %s on these operands' % op)
+        if k == 'unop':
+            op = n['op']
+            if op == '!':
+                return not self.ev(n['sub'])
+            if op in ('++', '--'):
+                ref = self.lv(n['sub'])
+                old = self.load(ref)
+                if not isinstance(old, int):
+                    self.unknown(nid, 'increment of a non-integer')
+                new = old + (1 if op == '++' else -1)
+                self.store(ref, new)
+                return old if n.get('postfix') else new
+            if op == '-':
+                return -self.ev(n['sub'])
+            if op == '+':
+                return self.ev(n['sub'])
+            if op == '&':
+                return ('addr', self.lv(n['sub']))
+            if op == '*':
+                return self.load(self.lv(nid))
+            self.unknown(nid, 'unary operator %s' % op)
+        if k == 'assign':
+            ref = self.lv(n['lhs'])
+            v = self.ev(n['rhs'])
+            if n.get('op') == '=':
+                self.store(ref, v)
+                return v
+            old = self.load(ref)
+            op = n['op'][:-1]
+            if isinstance(old, int) and isinstance(v, int) and op in ('+', '-', '*', '|', '&'):
+                new = {'+': old + v, '-': old - v, '*': old * v, '|': old | v, '&': old & v}[op]
+                self.store(ref, new)
+                return new
+            self.unknown(nid, 'compound assignment')
+        if k == 'condop':
+            return self.ev(n['then']) if self.ev(n['cond']) else self.ev(n['else'])
+        if k == 'construct':
+            return self.construct(nid, n)
+        if k == 'call':
+            return self.callexpr(nid, n)
+        if k == 'sizeof':
+            return self.m.type_size(n.get('of') or n.get('ofexpr_t'))
+        self.unknown(nid, 'expression kind %s' % k)
+
+    def construct(self, nid, n):
+        q = n.get('q', '')
+        args = [a for a in n.get('args', []) if a is not None]
+        if q.startswith('std::basic_string::'):
+            if not args:
+                return Str()
+            v = self.ev(args[0])
+            if isinstance(v, Str):
+                return v.copy()
+            if isinstance(v, str):
+                return Str(v)
+            self.unknown(nid, 'string constructed from this value')
+        if (n.get('elidable') or n.get('copymove')) and len(args) == 1:
+            v = self.ev(args[0])
+            return v.copy() if isinstance(v, Str) else v
+        if q.startswith('std::allocator'):
+            return None
+        if q.startswith(('std::back_insert_iterator', 'std::reverse_iterator')) and len(args) == 1:
+            return self.ev(args[0])
+        self.unknown(nid, 'construction of %s' % q)
+
+    def callexpr(self, nid, n):
+        fn = self.fn
+        q = n.get('q') or n.get('name') or ''
+        args = [a for a in n.get('args', []) if a is not None]
+        nm = q.rsplit('::', 1)[-1]
+        if q.startswith('std::basic_string::') and n.get('recv') is not None:
+            s = self.ev(n['recv'])
+            if not isinstance(s, Str):
+                self.unknown(nid, 'string method on a non-string')
+            if nm in ('size', 'length'):
+                return s.nbytes()
+            if nm == 'empty':
+                return not s.t
+            if nm == 'clear':
+                s.t = []
+                return None
+            if nm in ('reserve', 'shrink_to_fit'):
+                return None
+            if nm == 'back':
+                return self.load(('back', s))
+            if nm in ('operator=', 'assign') and len(args) == 1:
+                v = self.ev(args[0])
+                s.t = list(v.t) if isinstance(v, Str) else list(_as_text(v, self, nid))
+                return s
+            if nm in ('operator+=', 'append', 'push_back') and len(args) == 1:
+                v = self.ev(args[0])
+                s.t.extend(v.t if isinstance(v, Str) else _as_text(v, self, nid))
+                return s
+            if nm == 'operator[]':
+                return self.load(self.lv(nid))
+            if nm == 'swap' and len(args) == 1:
+                o = self.ev(args[0])
+                if isinstance(o, Str):
+                    s.t, o.t = o.t, s.t
+                    return None
+            self.unknown(nid, 'std::string::%s is not modelled' % nm)
+        if q == 'std::swap' and len(args) == 2:
+            ra, rb = self.lv(args[0]), self.lv(args[1])
+            a, b = self.load(ra), self.load(rb)
+            if isinstance(a, Str) and isinstance(b, Str):
+                a.t, b.t = b.t, a.t
+            else:
+                self.store(ra, b)
+                self.store(rb, a)
+            return None
+        if q in ('std::move', 'std::forward') and len(args) == 1:
+            return self.ev(args[0])
+        if nm == 'str_push' and len(args) == 2:
+            s = self.ev(args[0])
+            v = self.ev(args[1])
+            if not isinstance(s, Str):
+                self.unknown(nid, 'str_push into a non-string')
+            t = fn.nodes.get(peel_wrappers(fn, args[1]), {}).get('t') or fn.nodes.get(args[1], {}).get('t')
+            s.t.append(('bin', self.m.push_size(n, t), (t or '').replace('const ', ''), v))
+            return None
+        if nm == 'convert_to_hex' and len(args) == 1:
+            v = self.ev(args[0])
+            if isinstance(v, Str):
+                return Str([('hex', tuple(v.t))])
+            self.unknown(nid, 'convert_to_hex of a non-string')
+        if q == 'osmium::geom::Coordinates::append_to_string' and n.get('recv') is not None:
+            c = self.ev(n['recv'])
+            s = self.ev(args[0])
+            rest = [self.ev(a) for a in args[1:]]
+            if not isinstance(s, Str) or not isinstance(c, Obj) or len(rest) not in (2, 4):
+                self.unknown(nid, 'append_to_string call')
+            chars = [_as_char(x) for x in rest[:-1]]
+            pre, inf, suf = (None, chars[0], None) if len(chars) == 1 else chars
+            s.t.append(('P', pre, inf, suf, c.f.get('tag'), rest[-1]))
+            return None
+        if q == 'std::copy_n' and len(args) == 3:
+            src, cnt, dst = self.ev(args[0]), self.ev(args[1]), self.ev(args[2])
+            if not (isinstance(src, tuple) and src[0] == 'addr' and isinstance(dst, tuple) and dst[0] == 'addr' and dst[1][0] == 'at' and isinstance(cnt, int)):
+                self.unknown(nid, 'copy_n with these operands')
+            val = self.load(src[1])
+            _patch(dst[1][1], dst[1][2], cnt, val)
+            return None
+        if q in ('__assert_fail', 'abort', 'std::abort', 'std::terminate'):
+            raise ModelAbort(fn.expr(nid)[:80])
+        # a function of the fact base: interpret its body
+        cands = [g for g in self.m.fb.by_usr.get(n.get('u'), []) if g.has_cfg] if n.get('u') else []
+        if cands:
+            g = cands[0]
+            this = None
+            if n.get('recv') is not None and g.kind in ('method', 'operator', 'conv') and not g.static:
+                this = self.ev(n['recv'])
+            vals = []
+            for a, p in zip(args, g.params):
+                v = self.ev(a)
+                vals.append(v)
+            return self.m.call(g, this, vals)
+        self.unknown(nid, 'call of %s is not modelled' % q)
+
+
+def peel_wrappers(fn, nid):
+    hops = 0
+    while nid is not None and nid in fn.nodes and hops < 32:
+        hops += 1
+        n = fn.nodes[nid]
+        if n.get('k') in ('wrap', 'icast') and 'sub' in n:
+            nid = n['sub']
+        else:
+            break
+    return nid
+
+
+def _is_str_type(t):
+    t = (t or '').replace('const ', '')
+    return t.startswith(('std::string', 'std::basic_string<char'))
+
+
+def _as_char(v):
+    if isinstance(v, int) and 0 <= v < 256:
+        return chr(v)
+    if isinstance(v, str) and len(v) == 1:
+        return v
+    raise ModelUnknown('character value %r' % (v,))
+
+
+def _as_text(v, fr, nid):
+    if isinstance(v, str):
+        return list(v)
+    if isinstance(v, int) and 0 <= v < 256:
+        return [chr(v)]
+    fr.unknown(nid, 'appended value is neither text nor a character')
+
+
+def _patch(s, off, cnt, val):
+    pos = 0
+    for i, t in enumerate(s.t):
+        if pos == off:
+            if isinstance(t, tuple) and t[0] == 'bin' and t[1] == cnt:
+                s.t[i] = ('bin', cnt, t[2], val)
+                return
+            raise ModelError('%d bytes are patched at byte offset %d, which is the start of %r, not of a %d byte count field' % (cnt, off, t, cnt))
+        pos += tok_size(t)
+        if pos > off:
+            break
+    raise ModelError('%d bytes are patched at byte offset %d, which is not the start of a field (string has %d bytes)' % (cnt, off, s.nbytes()))
